@@ -7,7 +7,7 @@ patch=$(readlink -f "$1"); shift
 if [ -n "$NOLEAN" ]; then
   tmp=$(mktemp -d /tmp/mutrun.XXXXXX)
   git -C /repo ls-files -z | (cd /repo && xargs -0 cp --parents -t "$tmp")
-  (cd "$tmp" && mkdir .evidence && git init -q . && git apply "$patch") || { echo "patch does not apply"; rm -rf "$tmp"; exit 2; }
+  (cd "$tmp" && mkdir .evidence && git apply "$patch") || { echo "patch does not apply"; rm -rf "$tmp"; exit 2; }
   for p in "$@"; do
     out=$(cd /verif && VERIF_EVIDENCE_DIR="$tmp/.evidence" ELIOT_REPO="$tmp" bin/check "$p" --no-lean 2>&1 | grep -v "^KNOWN-FINDING" | tail -2 | tr '\n' ' ')
     echo "$p: $out"
